@@ -244,7 +244,13 @@ class Outcome:
             json.dump(ev, f, indent=1, default=str)
         for sig, v in listed:
             print("KNOWN-FINDING: property=%s %s (observed %d times)" % (self.pid, sig, v["count"]), flush=True)
-        shutil.rmtree(os.path.join(REPLAYS, self.pid), ignore_errors=True)
+        # witnesses of earlier runs at other seeds / tiers stay (they are needed for triage); this run's own are rewritten
+        try:
+            for f in os.listdir(os.path.join(REPLAYS, self.pid)):
+                if f.startswith("%s-seed%d-" % (self.tier, self.seed)):
+                    os.remove(os.path.join(REPLAYS, self.pid, f))
+        except OSError:
+            pass
         if new:
             os.makedirs(os.path.join(REPLAYS, self.pid), exist_ok=True)
             for i, (sig, v) in enumerate(new):
